@@ -432,6 +432,8 @@ func TestVerifC07(t *testing.T) {
 
 // ------------------------------------------------------------------ C08 (and the hand-off half of C04)
 
+const e2PieceLen = 4097 // just above BinaryInplaceThreshold: every piece becomes its own zero-copy node
+
 type flushCall struct {
 	API     string `json:"api"` // flush (Malloc+Flush), write, binary (WriteBinary nocopy + Flush), mixed
 	N       int    `json:"n"`
@@ -451,13 +453,21 @@ type flushScn struct {
 
 func genFlushScn(t *rapid.T, prop string) flushScn {
 	s := flushScn{Prop: prop}
-	s.SndBuf = rapid.SampledFrom([]int{2048, 4096, 8192}).Draw(t, "sndbuf")
+	s.SndBuf = rapid.SampledFrom([]int{2048, 4096, 8192, 0}).Draw(t, "sndbuf") // 0: the kernel's default (large) buffers
 	nc := rapid.IntRange(1, 3).Draw(t, "ncalls")
 	total := 0
 	for i := 0; i < nc; i++ {
 		c := flushCall{}
-		c.API = rapid.SampledFrom([]string{"flush", "flush", "write", "binary", "mixed"}).Draw(t, "api")
-		c.N = rapid.OneOf(rapid.IntRange(1, 4*s.SndBuf), rapid.IntRange(1, 300), rapid.IntRange(s.SndBuf-64, s.SndBuf+64), rapid.IntRange(3*s.SndBuf, 12*s.SndBuf)).Draw(t, "n")
+		c.API = rapid.SampledFrom([]string{"flush", "flush", "write", "binary", "mixed", "pieces"}).Draw(t, "api")
+		sb := s.SndBuf
+		if sb == 0 {
+			sb = 8192
+		}
+		c.N = rapid.OneOf(rapid.IntRange(1, 4*sb), rapid.IntRange(1, 300), rapid.IntRange(sb-64, sb+64), rapid.IntRange(3*sb, 12*sb)).Draw(t, "n")
+		if c.API == "pieces" {
+			// many zero-copy pieces in one flush: more output nodes than the 32-slot iovec barrier holds
+			c.N = rapid.IntRange(20, 48).Draw(t, "pieces") * e2PieceLen
+		}
 		c.Timeout = rapid.SampledFrom([]string{"none", "none", "timeout", "deadline"}).Draw(t, "timeout")
 		s.Calls = append(s.Calls, c)
 		total += c.N
@@ -515,8 +525,10 @@ func runFlush(t *rapid.T, s flushScn, replay []vs.Step) *flushOutcome {
 	w := newE2World(t, 1, replay)
 	o := &flushOutcome{w: w}
 	r, wfd := w.socketpair()
-	setSndBuf(r, s.SndBuf)
-	setRcvBuf(wfd, s.SndBuf)
+	if s.SndBuf > 0 {
+		setSndBuf(r, s.SndBuf)
+		setRcvBuf(wfd, s.SndBuf)
+	}
 	c := new(connection)
 	c.init(&netFD{fd: r, network: "unix", remoteAddr: &UnixAddr{}, localAddr: &UnixAddr{}}, nil)
 	o.c = c
@@ -565,6 +577,13 @@ func runFlush(t *rapid.T, s flushScn, replay []vs.Step) *flushOutcome {
 					_, err = c.Write(data)
 				case "binary":
 					_, err = c.Writer().WriteBinary(data)
+					if err == nil {
+						err = c.Writer().Flush()
+					}
+				case "pieces":
+					for off := 0; off < len(data) && err == nil; off += e2PieceLen {
+						_, err = c.Writer().WriteBinary(data[off : off+e2PieceLen : off+e2PieceLen]) // cap == len: the last piece stays the tail node
+					}
 					if err == nil {
 						err = c.Writer().Flush()
 					}
